@@ -317,5 +317,5 @@ PROPS.update(PROPS_THREADS)
 EXTERNAL.update(EXTERNAL_THREADS)
 
 # properties whose theorem files are still being proved are not claimed yet
-for _p in ():
+for _p in ('C16', 'C17'):
     PROPS[_p]['claimed'] = False
